@@ -67,6 +67,7 @@ class Org(Symbol):
     name: int = 0
     members: Set[Human] = field(default_factory=set)
     sub_org_of: List[Org] = field(default_factory=list)
+    related_to: List[Org] = field(default_factory=list)  # super-property of the transitive sub_org_of
     partner_of: List[Org] = field(default_factory=list)  # a second property between the same kinds of instances
 
 
@@ -123,7 +124,11 @@ class HeadOf(WorksFor):
 
 
 @dataclass
-class SubOrgOf(PropertyDescriptor, TransitiveProperty): ...
+class RelatedTo(PropertyDescriptor): ...
+
+
+@dataclass
+class SubOrgOf(RelatedTo, TransitiveProperty): ...
 
 
 @dataclass
@@ -170,6 +175,7 @@ Human.member_of = MemberOf(Human, "member_of")
 Boss.head_of = HeadOf(Boss, "head_of")
 Org.members = Member(Org, "members")
 Org.sub_org_of = SubOrgOf(Org, "sub_org_of")
+Org.related_to = RelatedTo(Org, "related_to")
 Org.partner_of = PartnerOf(Org, "partner_of")
 
 CLASSES = {"T": T, "Sub": Sub, "Falsy": Falsy, "Diamond": Diamond, "SubSub": SubSub, "Other": Other, "Org": Org, "Human": Human}
